@@ -87,7 +87,7 @@ def _one(data, src, col, as_str=False):
         except UnicodeDecodeError:
             as_str = False
     o = impl.parse_outcome(arg)
-    nt = o.verdict is not True or src in ("bytes", "mutant", "collision")
+    nt = o.verdict is not True or src in ("bytes", "mutant", "collision", "badcomment")
     sample = None
     if nt and col.evals % 1499 == 0:
         sample = {"input": data, "src": src, "verdict": o.verdict, "exc": o.exc, "steps": o.steps}
@@ -139,6 +139,34 @@ def byte_mutant(draw, base):
             ln = draw(st.integers(1, 6))
             data[i:i] = data[i : i + ln]
     return bytes(data)
+
+
+BAD_COMMENTS = [b" # \xff\xfe bad\n", b" /* \xc3 */ ", b" # r\xe9sum\xe9", b"/* \xf0\x9f */", b" # \xed\xa0\x80\r\n", b" /*\x80*/"]
+
+
+def badcomment_worker(arg):
+    """Scripts (valid and mutated) whose comments are not valid UTF-8."""
+    sd, n, depth = arg
+    col = core.Collector()
+
+    @pspace.hyp_settings(n)
+    @hseed(sd)
+    @given(st.data())
+    def body(data):
+        toks = data.draw(S.valid_script(maxdepth=depth, maxcmds=3))
+        variants = [toks]
+        for _ in range(3):
+            k, mt = data.draw(S.mutate(toks))
+            if k != "noop":
+                variants.append(mt)
+        for tk in variants:
+            text = data.draw(S.layout(tk, seps=[b" ", b"\n", b" "] + BAD_COMMENTS))
+            if data.draw(st.booleans()):
+                text += data.draw(st.sampled_from(BAD_COMMENTS)).rstrip(b"\n")
+            _one(text, "badcomment", col)
+
+    body()
+    return col
 
 
 def corpus_scripts():
@@ -381,6 +409,8 @@ def extra_worker(arg):
         return file_worker(payload)
     if kind == "scaling":
         return scaling_worker(payload)
+    if kind == "badcomment":
+        return badcomment_worker(payload)
     if kind == "atheris":
         return atheris_campaign(*payload)
     raise core.HarnessError(kind)
@@ -477,6 +507,7 @@ def main(tier, seed, t0):
     nbytes = 400 if quick else 15000
     extra = [("bytes", (seed * 1000 + 100 + k, nbytes, 3 if quick else 5)) for k in range(16)]
     extra.append(("collision", None))
+    extra += [("badcomment", (seed * 1000 + 300 + k, 150 if quick else 3000, 3)) for k in range(4)]
     extra += [("file", (seed * 1000 + 200 + k, 60 if quick else 600)) for k in range(2)]
     n0 = 400 if quick else 3000
     extra += [("scaling", (name, n0)) for name in sorted(FAMILIES)]
@@ -484,7 +515,7 @@ def main(tier, seed, t0):
     extra += [("atheris", (seed, runs, True)), ("atheris", (seed, runs, False))]
     col.merge(core.run_shards(extra_worker, extra, on_killed=on_killed))
     need = ["src:blind", "src:guided", "src:gen", "src:mutant", "src:bytes", "src:collision", "src:parse_file",
-            "src:scaling", "input:str", "verdict:False", "verdict:True"]
+            "src:scaling", "src:badcomment", "input:str", "verdict:False", "verdict:True"]
     missing = [c for c in need if not col.classes.get(c)]
     if missing:
         raise core.HarnessError("generator classes empty: %s" % missing)
